@@ -75,6 +75,8 @@ Ret(ret, recv, argT) ==
       [] ret.k = "unify_nil" -> IF UnifyNames(recv) = {} THEN Untyped ELSE ClsT(UnifyNames(recv) \cup {"NilClass"})
       [] ret.k = "unify_str" -> IF UnifyNames(recv) = {} THEN Untyped ELSE ClsT(UnifyNames(recv) \cup {"String"})
       [] ret.k = "self_int"  -> T(recv.s \cup {Cls("Integer")})
+      \* conditional ("Match") return Int|Float on an Int|Float parameter: the member at the argument's position
+      [] ret.k = "cond"      -> argT
 
 ClassOf(t) == IF IsArrT(t) THEN "Array" ELSE IF IsHshT(t) THEN "Hash"
               ELSE IF IsScalarT(t) /\ Cardinality(t.s) = 1 THEN TheAtom(t).n ELSE "?"
@@ -122,6 +124,22 @@ AssignCall(v, w, m, argc) ==
        IN  Record([op |-> "call", v |-> v, w |-> w, m |-> m.name, arg |-> IF m.arg THEN argc ELSE ""],
                   [env EXCEPT ![v] = r, ![w] = recv2])
 
+\* a, b = <literal>, <literal>
+FirstVar == CHOOSE x \in Vars : TRUE
+AssignMulti(v, w, c1, c2) ==
+    /\ v # w /\ c1 # c2
+    /\ v = FirstVar            \* one order of the pair is enough
+    /\ Record([op |-> "masgn", v |-> v, w |-> w, c1 |-> c1, c2 |-> c2], [env EXCEPT ![v] = ClsT({c1}), ![w] = ClsT({c2})])
+
+\* v += <literal>: the configured + of the receiver's class (Integer#+ and Float#+ are conditional on the operand)
+PlusResult(x, c) == CASE x = "String" /\ c = "String" -> "String"
+                      [] x = "Integer" /\ c = "Integer" -> "Integer"
+                      [] x \in {"Integer", "Float"} /\ c \in {"Integer", "Float"} -> "Float"
+                      [] OTHER -> ""
+OpAssign(v, c) ==
+    /\ IsScalarT(env[v]) /\ Cardinality(env[v].s) = 1 /\ PlusResult(TheAtom(env[v]).n, c) # ""
+    /\ Record([op |-> "opasgn", v |-> v, c |-> c], [env EXCEPT ![v] = ClsT({PlusResult(TheAtom(env[v]).n, c)})])
+
 Next ==
     /\ Len(prog) < MaxStmts
     /\ \/ \E v \in Vars, c \in Scalars : AssignLit(v, c)
@@ -132,7 +150,12 @@ Next ==
        \/ \E v, w \in Vars : AssignIndexArr(v, w)
        \/ \E v, w \in Vars, k \in {"a", "b"} : AssignIndexHash(v, w, k)
        \/ \E w \in Vars, c \in Scalars, how \in {"push", "shl"} : Push(w, c, how)
-       \/ \E v, w \in Vars, m \in Methods, c \in Scalars : (m.arg \/ c = CHOOSE x \in Scalars : TRUE) /\ AssignCall(v, w, m, c)
+       \/ \E v, w \in Vars, m \in Methods, c \in Scalars :
+             /\ (m.arg \/ c = CHOOSE x \in Scalars : TRUE)
+             /\ (m.ret.k = "cond" => c \in {"Integer", "Float"})
+             /\ AssignCall(v, w, m, c)
+       \/ \E v, w \in Vars, c1, c2 \in Scalars : AssignMulti(v, w, c1, c2)
+       \/ \E v \in Vars, c \in Scalars : OpAssign(v, c)
 
 Init == env = [v \in Vars |-> None] /\ prog = <<>>
 
@@ -143,7 +166,7 @@ TypeOK == \A v \in Vars : env[v].k \in {"none", "untyped"} \/ (env[v].k = "t" /\
 
 \* frame condition of straight-line code: a statement changes the variable it assigns
 \* (and, for push / <<, the receiver) and nothing else.  The deviation breaks exactly this.
-Assigned(s) == IF s.op \in {"push", "shl"} THEN {s.w} ELSE {s.v}
+Assigned(s) == IF s.op \in {"push", "shl"} THEN {s.w} ELSE IF s.op = "masgn" THEN {s.v, s.w} ELSE {s.v}
 FrameCondition ==
     [][\A x \in Vars : x \notin Assigned(prog'[Len(prog')].stmt) => env'[x] = env[x]]_vars
 
